@@ -29,11 +29,27 @@ def sessTok (tok : String) : Option Nat := do
   let n ← toNat? tok
   if n < nSessions then some n else none
 
+/-- The sessions of a harness case. -/
+def allSessions : List Nat := List.range nSessions
+
+/-- `c` user client, `d` federation client, `i` internal client, `f` internal client with the feature
+`internal-incall`; an upper-case letter = a client connection is attached. -/
+def parseMeta (tok : String) : Option Meta :=
+  let mk (t : CType) (feature conn : Bool) : Option Meta :=
+    some { ctype := t, feature := feature, flags := initialFlags t feature, connected := conn }
+  if tok = "c" then mk .client false false else if tok = "C" then mk .client false true
+  else if tok = "d" then mk .federation false false else if tok = "D" then mk .federation false true
+  else if tok = "i" then mk .internal false false else if tok = "I" then mk .internal false true
+  else if tok = "f" then mk .internal true false else if tok = "F" then mk .internal true true
+  else none
+
 structure St where
   model : State := State.init
   judge : Judge := {}
   /-- label ↦ model object id -/
   labels : List (Nat × Nat) := []
+  /-- lines seen so far (`world` is only an op as the first line of a case) -/
+  lines : Nat := 0
 
 def St.idOf (st : St) (l : Nat) : Option Nat := (st.labels.find? (fun p => p.1 == l)).map (·.2)
 def St.labelOf (st : St) (k : Nat) : Nat :=
@@ -57,9 +73,22 @@ def parseOp (st : St) : List String → Option (Op × Nat)
     some (.finish ((st.idOf l).getD 0) o, l)
   | ["close", s] => do some (.close (← sessTok s), 0)
   | ["state"] => some (.state, 0)
+  | "world" :: toks => do
+    if toks.length != nSessions then none
+    some (.world (← toks.mapM parseMeta), 0)
+  | ["incallall", r, b] => do some (.incallAll (← toNat? r) (b == "1") allSessions, 0)
+  | ["intincall", s, f] => do some (.intIncall (← sessTok s) (← toNat? f), 0)
+  | ["delroom", r] => do some (.delRoom (← toNat? r) allSessions, 0)
+  | ["disinvite", s, r] => do some (.disinvite (← sessTok s) (← toNat? r), 0)
+  | ["kick", s] => do some (.kick (← sessTok s), 0)
+  | ["asyncbye", s] => do some (.asyncBye (← sessTok s), 0)
+  | ["bye", s] => do some (.bye (← sessTok s), 0)
+  | ["drop", s] => do some (.drop (← sessTok s), 0)
+  | ["expire"] => some (.expire allSessions, 0)
+  | ["virtual", s, r] => do some (.virtual (← sessTok s) (← toNat? r), 0)
   | _ => none
 
-def step (st : St) (op impl : List String) : St × String × String :=
+def step1 (st : St) (op impl : List String) : St × String × String :=
   match op with
   | ["stress", seed, g, n] =>
     -- not predictable (real concurrency): the model side only says `stress`, the judge looks at the final state
@@ -82,6 +111,7 @@ def step (st : St) (op impl : List String) : St × String × String :=
   match parseOp st op with
   | none => (st, "bad-op", "na")
   | some (o, label) =>
+    if (match o with | .world _ => st.lines != 0 | _ => false) then (st, "bad-op", "na") else
     let (m', out) := exec codeCfg st.model o
     -- a request that reached the media server got the id `nextId`
     let labels := if out == s!"pending {st.model.nextId}" then (label, st.model.nextId) :: st.labels else st.labels
@@ -93,5 +123,9 @@ def step (st : St) (op impl : List String) : St × String × String :=
       | _, _ => out
     let (j', v) := if impl.isEmpty then (st.judge, "na") else st.judge.observe o label impl
     ({ st1 with judge := j' }, out, v)
+
+def step (st : St) (op impl : List String) : St × String × String :=
+  let (st', out, v) := step1 st op impl
+  ({ st' with lines := st'.lines + 1 }, out, v)
 
 end SigModel.Driver.C09
